@@ -290,11 +290,18 @@ func (w *World) handedOver(owner, field string) (bool, string) {
 }
 
 func checkC07(w *World, r *Report) {
-	r.Explanation = "Structural clause of C07: (R-1) every in-memory controller field that is written while a block executes is one of — block-scoped (a store to it lies on every path to a normal return of a BeginBlock handler), persisted (on the start-up path — constructor, and Info for the application — it receives a value data-dependent on a persistent read: meta store getters, tm-db Get, ledger reads; loads of other controller fields count only if those fields are themselves persisted on that path), or handed over (nil at every Commit return); (R-2) what Commit makes durable is what start-up loads: each persisted field's Commit-time store is paired with a durable write of the same value, and the codecs of the persisted records (BlockContext JSON, GovParams proto) cover every field symmetrically."
+	r.Explanation = "Structural clause of C07: (R-1) every in-memory controller field that is written while a block executes is one of — block-scoped (a store to it lies on every path to a normal return of a BeginBlock handler), persisted (on the start-up path — constructor, and Info for the application — it receives a value data-dependent on a persistent read: meta store getters, tm-db Get, ledger reads; loads of other controller fields count only if those fields are themselves persisted on that path), or handed over (nil at every Commit return); (R-2) what Commit makes durable is what start-up loads: each persisted field's Commit-time store is paired with a durable write of the same value, and the codecs of the persisted records (BlockContext JSON, GovParams proto) cover every field symmetrically; (R-3) write-back discipline (C01 D-6): an overlay object mutated in place is marked in its overlay on every success path, so the overlay cache — which a restart empties — never holds state the tree lacks."
 	r.NotCovered = "equality of results after a restart (a two-run comparison); the edge where governance limits change in the very block before the restart; restart inside a block (C08)."
 	x := NewExecCtx(w)
 	r1(w, r, x)
 	r2(w, r)
+	// R-3 = C01 D-6: the overlay cache must equal the tree, or a restart (which
+	// empties the cache) changes what execution reads
+	fns := consFuncs(x)
+	if r.importObs(w, func(t *Report) { d6(w, t, x, fns); d6b(w, t) }, "D-6", "R-3") == 0 {
+		r.Undecided("R-3", "write-back", "write-back analysis produced no obligation")
+	}
+	r.Floor("R-3", 8, "write-back sites")
 	r.Floor("R-1", 12, "controller fields written during block execution")
 	r.Floor("R-2", 8, "persist/load pairs and codecs")
 }
